@@ -7,7 +7,7 @@ import z3
 from . import smt
 from .values import (
     Unsupported, Sym, Ref, TupleV, FuncV, LambdaV, BuiltinV, ClassV, ModuleV, SuperV, Raised, ExcSym,
-    PyList, SeqV, PyDict, Obj, ArrState, DataView, Idx, StackState, Slice, is_concrete, num_term, isint_of,
+    PyList, SeqV, PyDict, Obj, ArrState, DataView, MaskView, Idx, StackState, Slice, is_concrete, num_term, isint_of,
     is_num, zand, zor, znot,
 )
 
@@ -32,6 +32,8 @@ def subst_value(v, kvar, k):
         return v
     if isinstance(v, DataView):
         return DataView(subst_value(v.base, kvar, k))
+    if isinstance(v, MaskView):
+        return MaskView(subst_value(v.base, kvar, k))
     return v
 
 
@@ -160,7 +162,7 @@ class ModelMixin(object):
                 for r in self.call_builtin("arr.getitem", st, [o, idx], {}):
                     yield r
                 return
-        if isinstance(o, DataView):
+        if isinstance(o, (DataView, MaskView)):
             for r in self.call_builtin("arr.getitem", st, [o, idx], {}):
                 yield r
             return
@@ -182,6 +184,7 @@ class ModelMixin(object):
             yield st, st.alloc(PyList(seq=self.seq_slice(seq, idx)))
             return
         k = self.norm_index(idx, seq.n)
+        st.note_k(k)
         for s2, ok in self.branch(st, z3.And(k >= 0, k < seq.n)):
             if ok:
                 yield s2, seq.get(z3.simplify(k))
@@ -382,7 +385,7 @@ class ModelMixin(object):
                 for r in self.call_builtin("arr.attr", st, [o, name], {}):
                     yield r
                 return
-        if isinstance(o, DataView):
+        if isinstance(o, (DataView, MaskView)):
             for r in self.call_builtin("arr.attr", st, [o, name], {}):
                 yield r
             return
